@@ -262,6 +262,43 @@ def run(chk):
             elif r.returncode == 1 and (not err or made):
                 chk.violate("exit 1 without error text, or with files created", {"program": m}, "loud failure", {"stderr": r.stderr[-200:].decode(errors="replace"), "files": made})
             chk.count("bin_exit_%d" % r.returncode)
+        # ---- numbers at the edge of a machine word on the *released* binary (no overflow checks: arithmetic wraps where
+        # the oracle harness panics) against the model (unbounded integers): a wrap shows as output the model does not have
+        M = ["0xffffffffffffffff", "0x10000000000000000", "0x7fffffffffffffff", "0x8000000000000000", "0xfffffffffffffffe"]
+        edge = []
+        for m_ in M:
+            if m_ in M[:2]:
+                # (smaller bounds are finding F14d: the slice is materialised)
+                edge += ["#d8 0x55\n#d 0xab[%s:0]\n" % m_, "#d8 0x55\n#d 0xab[%s:%s]\n" % (m_, m_)]
+            edge += ["#d8 (1 << %s) == 0 ? 1 : 2\n" % m_,
+                     "#d8 (0xff >> %s)\n" % m_, "#d8 (-1 >> %s) == -1 ? 1 : 2\n" % m_,
+                     "x = %s\n#d64 x\n#d8 x + 1 == 0 ? 1 : 2\n" % m_, "#d8 %s * %s == 1 ? 1 : 2\n" % (m_, m_), "#d8 -%s / 3 == 0 ? 1 : 2\n" % m_,
+                     "#d8 incbin(\"main.asm\", %s, 1) == 0 ? 1 : 2\n" % m_, "#d8 incbin(\"main.asm\", 1, %s) == 0 ? 1 : 2\n" % m_,
+                     "#bankdef a { #addr %s, #size 2, #outp 0 }\nl:\n#d8 1\n#d8 l == 0 ? 1 : 2\n" % m_,
+                     "#bankdef a { #addr 0, #addr_end %s, #outp 0 }\n#d8 1\n" % m_, "#bankdef a { #bits 16, #addr 0, #size %s, #outp 0 }\n#d16 1\n" % m_,
+                     "#ruledef\n{\n    e {x: u64} => x\n}\ne %s\n" % m_, "#ruledef\n{\n    e {x: s64} => x\n}\ne -%s\n" % m_]
+        eops = [fw.asm_op([("main.asm", t)]) for t in edge]
+        emodel = fw.run_model(eops, "c03e", timeout=600)
+        for i, (t, ml) in enumerate(zip(edge, emodel)):
+            chk.evaluations += 1
+            d = os.path.join(tmp, "e%d" % i)
+            os.makedirs(d)
+            open(os.path.join(d, "main.asm"), "w", encoding="utf-8").write(t)
+            try:
+                r = subprocess.run([binary, "main.asm", "-q", "-p", "-f", "binstr"], cwd=d, stdout=subprocess.PIPE, stderr=subprocess.PIPE, timeout=20)
+            except subprocess.TimeoutExpired:
+                report(chk, {"died": True, "stderr": "timeout"}, "real binary hangs on a number at the edge of a machine word", {"program": t})
+                continue
+            chk.count("edge_exit_%d" % r.returncode)
+            out = r.stdout.decode(errors="replace").strip()
+            if r.returncode not in (0, 1):
+                report(chk, {"died": True, "stderr": r.stderr.decode(errors="replace")},
+                       "real binary ended abnormally: exit %d: %s" % (r.returncode, r.stderr[-300:].decode(errors="replace")), {"program": t})
+            elif r.returncode == 0 and not (ml.startswith("ok ") and (ml.split(" ")[1].replace("-", "") == out)):
+                chk.violate("the released binary assembles a program the model (unbounded integers) rejects or assembles differently: a wrapped number",
+                            {"program": t}, ml[:120], out[:120])
+            elif r.returncode == 1 and ml.startswith("ok "):
+                chk.disagree("released binary on: " + t, ml[:120], "exit 1: " + r.stderr[-200:].decode(errors="replace"))
     finally:
         shutil.rmtree(tmp, ignore_errors=True)
     chk.notes.append("theorems: drive_dichotomy, failure_writes_nothing, unwritable_not_written, runGroups_inv (driver outcome logic, assembler as a parameter); "
